@@ -13,6 +13,15 @@ Local Open Scope Z_scope.
 Section OpsTable.
 Context {F : Type} {NF : Num F}.
 Variable c : cfg.
+(* the functions whose bodies are selected by the dimension-check cfg (Proofs/MiniRustEmb.v unit_tac, extended to quantities and to
+   the conversion Quantity -> Command) *)
+Ltac unit_tac2 c :=
+  destruct c as [[] ?]; intros; split_ops; repeat match goal with x : unit_ |- _ => destruct x end;
+  repeat match goal with x : @quantity _ |- _ => destruct x as [? []] end;
+  unfold run_val, run_self, run_unit, run_try, run_with; cbn;
+  repeat (progress unfold uadd, usub, assert_ok, assert_not_ok, eq_assume_true, eq_assume_false, umul, udiv, unew, ueqb, unit_of_pd, pd_of_unit, c_of_q, bind; cbn [chk mm sec qu qv]);
+  cbn;
+  repeat (match goal with |- context [Z.eqb ?a ?b] => destruct (Z.eqb a b) end; cbn); try reflexivity.
 
 (* impl Add for Time *)
 Theorem ops_Add_TT (x0 : Z) (x1 : Z) :
@@ -557,92 +566,97 @@ Proof. ops_tac. Qed.
 (* impl Add for Unit *)
 Theorem ops_Add_UU (x0 : unit_) (x1 : unit_) :
   run_val c (g_Add_UU c) [("self", MV (VU x0)); ("rhs", MV (VU x1))] = apply_op c 1 [VU x0; VU x1].
-Proof. unit_tac c. Qed.
+Proof. unit_tac2 c. Qed.
 
 (* impl Sub for Unit *)
 Theorem ops_Sub_UU (x0 : unit_) (x1 : unit_) :
   run_val c (g_Sub_UU c) [("self", MV (VU x0)); ("rhs", MV (VU x1))] = apply_op c 2 [VU x0; VU x1].
-Proof. unit_tac c. Qed.
+Proof. unit_tac2 c. Qed.
 
 (* impl Mul for Unit *)
 Theorem ops_Mul_UU (x0 : unit_) (x1 : unit_) :
   run_val c (g_Mul_UU c) [("self", MV (VU x0)); ("rhs", MV (VU x1))] = apply_op c 3 [VU x0; VU x1].
-Proof. unit_tac c. Qed.
+Proof. unit_tac2 c. Qed.
 
 (* impl Div for Unit *)
 Theorem ops_Div_UU (x0 : unit_) (x1 : unit_) :
   run_val c (g_Div_UU c) [("self", MV (VU x0)); ("rhs", MV (VU x1))] = apply_op c 4 [VU x0; VU x1].
-Proof. unit_tac c. Qed.
+Proof. unit_tac2 c. Qed.
 
 (* impl AddAssign for Unit *)
 Theorem ops_AddAssign_UU (x0 : unit_) (x1 : unit_) :
   run_self c (g_AddAssign_UU c) [("self", MV (VU x0)); ("rhs", MV (VU x1))] = apply_op c 5 [VU x0; VU x1].
-Proof. unit_tac c. Qed.
+Proof. unit_tac2 c. Qed.
 
 (* impl SubAssign for Unit *)
 Theorem ops_SubAssign_UU (x0 : unit_) (x1 : unit_) :
   run_self c (g_SubAssign_UU c) [("self", MV (VU x0)); ("rhs", MV (VU x1))] = apply_op c 6 [VU x0; VU x1].
-Proof. unit_tac c. Qed.
+Proof. unit_tac2 c. Qed.
 
 (* impl MulAssign for Unit *)
 Theorem ops_MulAssign_UU (x0 : unit_) (x1 : unit_) :
   run_self c (g_MulAssign_UU c) [("self", MV (VU x0)); ("rhs", MV (VU x1))] = apply_op c 7 [VU x0; VU x1].
-Proof. unit_tac c. Qed.
+Proof. unit_tac2 c. Qed.
 
 (* impl DivAssign for Unit *)
 Theorem ops_DivAssign_UU (x0 : unit_) (x1 : unit_) :
   run_self c (g_DivAssign_UU c) [("self", MV (VU x0)); ("rhs", MV (VU x1))] = apply_op c 8 [VU x0; VU x1].
-Proof. unit_tac c. Qed.
+Proof. unit_tac2 c. Qed.
 
 (* impl Neg for Unit *)
 Theorem ops_Neg_U (x0 : unit_) :
   run_val c (g_Neg_U c) [("self", MV (VU x0))] = apply_op c 9 [VU x0].
-Proof. unit_tac c. Qed.
+Proof. unit_tac2 c. Qed.
 
 (* impl From<PositionDerivative> for Unit *)
 Theorem ops_From_P_U (x0 : pd) :
   run_val c (g_From_P_U c) [("was", MV (VPD x0))] = apply_op c 29 [VPD x0].
-Proof. unit_tac c. Qed.
+Proof. unit_tac2 c. Qed.
 
 (* impl TryFrom<Unit> for PositionDerivative *)
 Theorem ops_TryFrom_U_P (x0 : unit_) :
   run_try c (g_TryFrom_U_P c) [("was", MV (VU x0))] = apply_op c 28 [VU x0].
-Proof. unit_tac c. Qed.
+Proof. unit_tac2 c. Qed.
+
+(* impl TryFrom<Quantity> for Command *)
+Theorem ops_TryFrom_Q_C (x0 : (@quantity F)) :
+  run_try c (g_TryFrom_Q_C c) [("was", MV (VQ x0))] = apply_op c 27 [VQ x0].
+Proof. unit_tac2 c. Qed.
 
 (* Unit::new *)
 Theorem ops_U_new (x0 : Z) (x1 : Z) :
   run_val c (g_U_new c) [("millimeter_exp", MV (VI x0)); ("second_exp", MV (VI x1))] = apply_op c 34 [VI x0; VI x1].
-Proof. unit_tac c. Qed.
+Proof. unit_tac2 c. Qed.
 
 (* Unit::eq_assume_true *)
 Theorem ops_U_eq_assume_true (x0 : unit_) (x1 : unit_) :
   run_val c (g_U_eq_assume_true c) [("self", MV (VU x0)); ("rhs", MV (VU x1))] = apply_op c 41 [VU x0; VU x1].
-Proof. unit_tac c. Qed.
+Proof. unit_tac2 c. Qed.
 
 (* Unit::eq_assume_false *)
 Theorem ops_U_eq_assume_false (x0 : unit_) (x1 : unit_) :
   run_val c (g_U_eq_assume_false c) [("self", MV (VU x0)); ("rhs", MV (VU x1))] = apply_op c 42 [VU x0; VU x1].
-Proof. unit_tac c. Qed.
+Proof. unit_tac2 c. Qed.
 
 (* Unit::assert_eq_assume_ok *)
 Theorem ops_U_assert_eq_assume_ok (x0 : unit_) (x1 : unit_) :
   run_unit c (g_U_assert_eq_assume_ok c) [("self", MV (VU x0)); ("rhs", MV (VU x1))] = apply_op c 43 [VU x0; VU x1].
-Proof. unit_tac c. Qed.
+Proof. unit_tac2 c. Qed.
 
 (* Unit::assert_eq_assume_not_ok *)
 Theorem ops_U_assert_eq_assume_not_ok (x0 : unit_) (x1 : unit_) :
   run_unit c (g_U_assert_eq_assume_not_ok c) [("self", MV (VU x0)); ("rhs", MV (VU x1))] = apply_op c 44 [VU x0; VU x1].
-Proof. unit_tac c. Qed.
+Proof. unit_tac2 c. Qed.
 
 (* Unit::const_eq *)
 Theorem ops_U_const_eq (x0 : unit_) (x1 : unit_) :
   run_val c (g_U_const_eq c) [("self", MV (VU x0)); ("rhs", MV (VU x1))] = apply_op c 40 [VU x0; VU x1].
-Proof. unit_tac c. Qed.
+Proof. unit_tac2 c. Qed.
 
 (* Unit::const_assert_eq *)
 Theorem ops_U_const_assert_eq (x0 : unit_) (x1 : unit_) :
   run_unit c (g_U_const_assert_eq c) [("self", MV (VU x0)); ("rhs", MV (VU x1))] = apply_op c 45 [VU x0; VU x1].
-Proof. unit_tac c. Qed.
+Proof. unit_tac2 c. Qed.
 
 End OpsTable.
 
@@ -765,6 +779,7 @@ Print Assumptions ops_DivAssign_UU.
 Print Assumptions ops_Neg_U.
 Print Assumptions ops_From_P_U.
 Print Assumptions ops_TryFrom_U_P.
+Print Assumptions ops_TryFrom_Q_C.
 Print Assumptions ops_U_new.
 Print Assumptions ops_U_eq_assume_true.
 Print Assumptions ops_U_eq_assume_false.
